@@ -53,12 +53,14 @@ def slice_spec(fs, dim, a, b):
 
 
 @st.composite
-def redraw(draw, fs, opts, newlen=None, share=0.0, int_small=False):
+def redraw(draw, fs, opts, newlen=None, share=0.0, int_small=False,
+           vary_coords=False):
     """a FileSpec with the schema of `fs` (names, dims, dtypes, masked-ness,
     attributes) and independently drawn data and masks.  newlen: {dim: len}
     overrides.  share: probability that a cell repeats the value of the
     corresponding cell of `fs` (only where shapes agree).  int_small: integer
-    variables hold values 0..3 (exponents)."""
+    variables hold values 0..3 (exponents).  vary_coords: coordinate
+    variables get independent values too (default: they are repeated)."""
     newlen = newlen or {}
     out = dict(dims=[[n, int(newlen.get(n, l)), u] for n, l, u in fs['dims']],
                vars=[], gattrs=copy.deepcopy(fs.get('gattrs', {})))
@@ -71,7 +73,7 @@ def redraw(draw, fs, opts, newlen=None, share=0.0, int_small=False):
         nv = {k: copy.deepcopy(x) for k, x in v.items()
               if k not in ('data', 'mask', 'raw')}
         same_shape = all(dlen[d] == old[d] for d in v['dims'])
-        if v.get('coord') and same_shape:
+        if v.get('coord') and same_shape and not vary_coords:
             nv['data'] = list(v['data'])
             nv['mask'] = None
             out['vars'].append(nv)
